@@ -14,7 +14,8 @@ by instances are used too).
 import itertools
 import z3
 
-MAX_INST = 4000
+MAX_INST = 800
+MAX_VARS = 3
 
 
 def _is_ground(t, cache):
@@ -58,10 +59,12 @@ def collect_terms(fs, terms, gcache):
                 cand = [c for c in ch if c.sort().kind() in (z3.Z3_SEQ_SORT, z3.Z3_DATATYPE_SORT) or
                         (z3.is_const(c) and c.decl().kind() == z3.Z3_OP_UNINTERPRETED)]
             for c in cand:
-                if c.sort().kind() in (z3.Z3_ARRAY_SORT, z3.Z3_BOOL_SORT):
+                if c.sort().kind() == z3.Z3_BOOL_SORT:
+                    continue
+                if c.sort().kind() == z3.Z3_ARRAY_SORT and k != z3.Z3_OP_UNINTERPRETED:
                     continue
                 if _is_ground(c, gcache):
-                    terms.setdefault(c.sort().name(), {})[c.get_id()] = c
+                    terms.setdefault(str(c.sort()), {})[c.get_id()] = c
             todo.extend(ch)
 
 
@@ -70,73 +73,76 @@ class Inst:
         self.terms = terms
         self.n = itertools.count()
         self.leftover = False
+        self.budget = 6000  # total number of instances generated
 
-    def fresh(self, sort, base):
+    def fresh(self, sort, base, register=True):
         c = z3.Const("sk!%s!%d" % (base, next(self.n)), sort)
-        self.terms.setdefault(sort.name(), {})[c.get_id()] = c
+        if register:
+            self.terms.setdefault(str(sort), {})[c.get_id()] = c
         return c
 
-    def tr(self, f, pos, skolem_only):
-        """pos: f is asserted true (True) / false (False)"""
+    def tr(self, f, pos, skolem_only, env=()):
+        """pos: f is asserted true (True) / false (False).  f is an ORIGINAL sub-term (it may contain
+        de Bruijn variables); env maps Var(i) -> env[i].  Only quantifier-free leaves are substituted."""
+        if not _has_q(f):
+            return z3.substitute_vars(f, *env) if env else f
         if z3.is_quantifier(f):
             if f.is_lambda():
-                return f
+                self.leftover = True
+                return z3.substitute_vars(f, *env) if env else f
             univ = f.is_forall() == pos  # behaves as a universal under this polarity
             n = f.num_vars()
             sorts = [f.var_sort(i) for i in range(n)]
             if not univ:
-                consts = [self.fresh(sorts[i], f.var_name(i).split("!")[0]) for i in range(n)]
-                body = z3.substitute_vars(f.body(), *reversed(consts))
-                return self.tr(body, pos, skolem_only)
-            if skolem_only:
-                return f
+                consts = [self.fresh(sorts[i], f.var_name(i).split("!")[0], register=skolem_only or not env)
+                          for i in range(n)]
+                return self.tr(f.body(), pos, skolem_only, tuple(reversed(consts)) + tuple(env))
+            if skolem_only or n > MAX_VARS or self.budget <= 0:
+                if not skolem_only:
+                    self.leftover = True
+                return z3.substitute_vars(f, *env) if env else f
             pools = []
             for s in sorts:
-                p = list(self.terms.get(s.name(), {}).values())
+                p = list(self.terms.get(str(s), {}).values())
                 if not p:
                     p = [self.fresh(s, "w")]
                 pools.append(p)
             total = 1
             for p in pools:
                 total *= len(p)
-            if total > MAX_INST:
+            while total > MAX_INST:
                 self.leftover = True
-                # shrink the larger pools
-                while total > MAX_INST:
-                    big = max(pools, key=len)
-                    total //= len(big)
-                    del big[len(big) // 2:]
-                    total *= len(big)
+                big = max(pools, key=len)
+                total //= len(big)
+                del big[max(1, len(big) // 2):]
+                total *= len(big)
             insts = []
+            self.budget -= total
             for combo in itertools.product(*pools):
-                body = z3.substitute_vars(f.body(), *reversed(combo))
-                insts.append(self.tr(body, pos, skolem_only))
+                insts.append(self.tr(f.body(), pos, skolem_only, tuple(reversed(combo)) + tuple(env)))
             if pos:
                 return z3.And(*insts) if insts else z3.BoolVal(True)
             return z3.Or(*insts) if insts else z3.BoolVal(False)
-        if not z3.is_app(f) or f.sort().kind() != z3.Z3_BOOL_SORT:
-            return f
         k = f.decl().kind()
         ch = f.children()
         if k == z3.Z3_OP_AND:
-            return z3.And(*[self.tr(c, pos, skolem_only) for c in ch])
+            return z3.And(*[self.tr(c, pos, skolem_only, env) for c in ch])
         if k == z3.Z3_OP_OR:
-            return z3.Or(*[self.tr(c, pos, skolem_only) for c in ch])
+            return z3.Or(*[self.tr(c, pos, skolem_only, env) for c in ch])
         if k == z3.Z3_OP_NOT:
-            return z3.Not(self.tr(ch[0], not pos, skolem_only))
+            return z3.Not(self.tr(ch[0], not pos, skolem_only, env))
         if k == z3.Z3_OP_IMPLIES:
-            return z3.Implies(self.tr(ch[0], not pos, skolem_only), self.tr(ch[1], pos, skolem_only))
-        if k in (z3.Z3_OP_EQ, z3.Z3_OP_IFF) and ch[0].sort().kind() == z3.Z3_BOOL_SORT and _has_q(f):
+            return z3.Implies(self.tr(ch[0], not pos, skolem_only, env), self.tr(ch[1], pos, skolem_only, env))
+        if k in (z3.Z3_OP_EQ, z3.Z3_OP_IFF) and ch[0].sort().kind() == z3.Z3_BOOL_SORT:
             a, b = ch
-            return z3.And(z3.Implies(self.tr(a, not pos, skolem_only), self.tr(b, pos, skolem_only)),
-                          z3.Implies(self.tr(b, not pos, skolem_only), self.tr(a, pos, skolem_only)))
-        if k == z3.Z3_OP_ITE and _has_q(f):
+            return z3.And(z3.Implies(self.tr(a, not pos, skolem_only, env), self.tr(b, pos, skolem_only, env)),
+                          z3.Implies(self.tr(b, not pos, skolem_only, env), self.tr(a, pos, skolem_only, env)))
+        if k == z3.Z3_OP_ITE and f.sort().kind() == z3.Z3_BOOL_SORT:
             c, a, b = ch
-            return z3.And(z3.Implies(self.tr(c, not pos, skolem_only), self.tr(a, pos, skolem_only)),
-                          z3.Implies(z3.Not(self.tr(c, pos, skolem_only)), self.tr(b, pos, skolem_only)))
-        if _has_q(f):
-            self.leftover = True  # quantifier below a non-boolean connective: left to the solver
-        return f
+            return z3.And(z3.Implies(self.tr(c, not pos, skolem_only, env), self.tr(a, pos, skolem_only, env)),
+                          z3.Implies(z3.Not(self.tr(c, pos, skolem_only, env)), self.tr(b, pos, skolem_only, env)))
+        self.leftover = True  # quantifier below a non-boolean connective: left to the solver
+        return z3.substitute_vars(f, *env) if env else f
 
 
 _hq = {}
@@ -162,10 +168,21 @@ def bounded_check(hyps, goal, timeout_ms=20000, rounds=2):
     fs1 = [inst.tr(f, True, True) for f in fs]
     collect_terms(fs1, terms, gcache)
     out = fs1
-    for _ in range(rounds):
+    for rnd in range(rounds):
+        inst.budget = 6000
         out = [inst.tr(f, True, False) for f in fs1]
+        if rnd == rounds - 1:
+            break
         before = sum(len(v) for v in terms.values())
-        collect_terms(out, terms, gcache)
+        new_terms = {}
+        collect_terms(out, new_terms, gcache)
+        # second generation: only a bounded number of new terms per sort (smallest first)
+        for srt, d in new_terms.items():
+            have = terms.setdefault(srt, {})
+            extra = [t for i, t in d.items() if i not in have]
+            extra.sort(key=lambda t: len(t.sexpr()))
+            for t in extra[:max(0, 40 - len(have))]:
+                have[t.get_id()] = t
         if sum(len(v) for v in terms.values()) == before:
             break
     s = z3.Solver()
